@@ -1073,6 +1073,13 @@ mod imp {
             if *delims == DEFAULT_DELIMS {
                 return Ok(SyntaxConfig::default());
             }
+            // the lexer searches for the end delimiters, so they cannot be empty
+            if delims.variable_end.is_empty()
+                || delims.block_end.is_empty()
+                || delims.comment_end.is_empty()
+            {
+                return Err(ErrorKind::InvalidDelimiter.into());
+            }
             let aho_corasick = ok!(AhoCorasick::builder()
                 .build(ok!(delims.validated_start_delims()))
                 .map_err(|_| ErrorKind::InvalidDelimiter.into()));
